@@ -158,17 +158,15 @@ PROPS = {
     'C13': {
         'title': 'Vector search returns the exact nearest neighbours',
         'level': 'model_checking',
-        'level_text': 'BOUNDED (exactly m <= 5 documents, m <= 3 quick; every distance value, every frame id, every k): VecIndex::search on the Uncompressed (brute-force) representation returns min(k, m) hits, in non-decreasing distance, each hit carrying its own document id and distance, no document twice, and no omitted document strictly closer than the last hit; an empty query returns nothing. l2_distance is replaced by its contract (some non-NaN f32 >= 0 per document).',
+        'level_text': 'BOUNDED (exactly m <= 6 documents, m <= 5 quick; every distance value, every frame id, every k): VecIndex::search on the Uncompressed (brute-force) representation returns min(k, m) hits, in non-decreasing distance, each hit carrying its own document id and distance, no document twice, and no omitted document strictly closer than the last hit; an empty query returns nothing. l2_distance is replaced by its contract (some non-NaN f32 >= 0 per document).',
         'level_note': 'Brute-force path only. NOT covered: the dimension check in Memvid::search_vec, identity of results after close/reopen, HNSW / PQ representations (feature-gated or approximate by construction), and the float definition of the distance (that is C38).',
         'technique': 'Kani bounded harnesses on the real VecIndex::search with l2_distance replaced by its contract',
         'design_ref': 'DESIGN.md section 3 (C13)',
         'verus': [],
-        'kani': [H(VEC, 'search_exact_m0', 'quick', 'bounded', '0 documents', playback=False), H(VEC, 'search_exact_m1', 'quick', 'bounded', '1 document', playback=False),
-                 H(VEC, 'search_exact_m2', 'quick', 'bounded', '2 documents', playback=False), H(VEC, 'search_exact_m3', 'quick', 'bounded', '3 documents', playback=False),
-                 H(VEC, 'search_exact_m4', 'thorough', 'bounded', '4 documents', playback=False), H(VEC, 'search_exact_m5', 'thorough', 'bounded', '5 documents', playback=False),
-                 H(VEC, 'search_empty_query', 'quick', 'bounded', '1 document', playback=False)],
+        'kani': [H(VEC, 'search_exact_m%d' % m, 'quick' if m <= 5 else 'thorough', 'bounded', '%d document%s' % (m, '' if m == 1 else 's'), playback=False) for m in range(0, 7)] +
+                [H(VEC, 'search_empty_query', 'quick', 'bounded', '1 document', playback=False)],
         'assumptions': [A_TOOLS, A_TRACE, 'A-L2: l2_distance(query, doc) is a total function of the document returning a non-NaN value >= 0 (contract stub; its float definition is C38, not claimed)'],
-        'not_covered': ['Memvid::search_vec dimension validation', 'results after close and reopen', 'HNSW / product-quantised representations', 'more than 5 documents (bounded)'],
+        'not_covered': ['Memvid::search_vec dimension validation', 'results after close and reopen', 'HNSW / product-quantised representations', 'more than 6 documents (bounded)'],
         'search': 'vec',
     },
 
